@@ -17,7 +17,8 @@ HYGIENE = [hygiene.r_falsy, hygiene.r_enum, hygiene.r_cache,
            hygiene.r_shared, hygiene.r_loopflag, misc.r_oneshot,
            hygiene.r_argmut, hygiene.r_identity, hygiene.r_classstate,
            hygiene.r_owned, hygiene.r_unused, hygiene.r_signblind,
-           hygiene.r_zip, hygiene.r_attrs]
+           hygiene.r_zip, hygiene.r_attrs, bounds.r_nonempty,
+           hygiene.r_unbound]
 HYGIENE_TEXT = (
     ' Repository conventions over every function reachable from the '
     'property\'s entry points: optional arguments, lookup results and '
